@@ -5,6 +5,11 @@ V = os.path.dirname(os.path.dirname(os.path.abspath(__file__)))
 table = json.load(open(os.path.join(V, "checks", "table.json")))
 meta = json.load(open(os.path.join(V, "checks", "manifest_meta.json")))
 ids = [json.loads(l)["id"] for l in open(os.path.join(V, "properties.jsonl"))]
+import subprocess
+try:
+    meta['hooks']['source_commits'] = subprocess.run(['git','-C','/repo','log','--reverse','--format=%h %s','--grep=^verif-hooks:'],capture_output=True,text=True).stdout.strip().splitlines()
+except Exception:
+    pass
 checks = []
 for pid in ids:
     if pid in table and pid in meta["checks"]:
